@@ -31,7 +31,9 @@ HOLDERS = ["Jane Doe", "Free Software Foundation Europe e.V.", "Jane Doe <jane@e
            # holders whose last letters happen to mirror a word-like comment marker (Fortran 'c', m4 'dnl', batch 'REM')
            "Acme, Inc", "Marc", "Kindl and", "SUMMER"]
 YEARS = [None, "2020", "2019-2021", "2019 - 2021", "2020,"]
-CONTRIBUTORS = ["Kim Contributor", "Kim <kim@example.com>", "Łukasz Żółć", "K", "Kim (documentation)", "Kim, Lee and Max", "Eric", "Frantic", "Kindlnd", "HAMMER"]
+CONTRIBUTORS = ["Kim Contributor", "Kim <kim@example.com>", "Łukasz Żółć", "K", "Kim (documentation)", "Kim, Lee and Max", "Eric", "Frantic", "Kindlnd", "HAMMER",
+                # values that end in ONE character of a several-character comment marker ('//', '..', '<!--', '.\\"'): not the mirrored marker, so nothing to strip
+                "Kim <https://kim.example/>/", "Kim https://kim.example/", "Kim Ltd.", "Kim!", "Kim -", "Kim \"K\""]
 COPY_PREFIXES = ["SPDX-FileCopyrightText:", "SPDX-SnippetCopyrightText:", "SPDX-FileCopyrightText: (C)", "SPDX-FileCopyrightText: ©",
                  "SPDX-FileCopyrightText: Copyright", "SPDX-FileCopyrightText: Copyright (C)", "SPDX-FileCopyrightText: Copyright ©",
                  "Copyright", "Copyright (C)", "Copyright (c)", "Copyright ©", "©"]
